@@ -122,7 +122,8 @@ ChooseClientFault ==
        \/ /\ Enveloped(scn.cl.form) /\ n >= 1
           /\ \E c \in Cuts : scn' = [scn EXCEPT !.cl.cut = c]
        \/ /\ n >= 1
-          /\ \E ff \in FrameFaults(scn.cl.frames[n].z) :
+          \* (flags:1 - "compressed" - on a stream for which no compression was declared is an invalid flag too)
+          /\ \E ff \in FrameFaults(scn.cl.frames[n].z) \cup (IF scn.cl.comp \in {"", "identity"} THEN {"flags:1"} ELSE {}) :
                /\ (~Enveloped(scn.cl.form) => ff \in {"undecodable", "gzcorrupt"})
                /\ scn' = [scn EXCEPT !.cl.frames[n].fault = ff]
        \/ /\ ~Enveloped(scn.cl.form) /\ n >= 1 /\ scn.cl.form # "connect_get"
@@ -314,7 +315,8 @@ ChooseHostile ==
 \* chunks mode: how the bytes are split across the client's body reads, the handler's
 \* Read buffers and the handler's Write / Flush calls (0 = an empty Write)
 BodyChunks  == {<<1>>, <<2>>, <<3>>, <<4>>, <<6>>, <<5, 1>>, <<1, 4>>, <<7, 3>>}
-ReadBuffers == {<<1>>, <<2>>, <<3>>, <<4>>, <<5>>, <<6>>, <<1, 5>>, <<4, 2>>, <<7>>}
+\* (0: a zero-length Read in between, which must not change anything)
+ReadBuffers == {<<1>>, <<2>>, <<3>>, <<4>>, <<5>>, <<6>>, <<1, 5>>, <<4, 2>>, <<7>>, <<0, 3>>}
 WriteSizes  == {<<1>>, <<2>>, <<5>>, <<4, 1>>, <<0, 3>>, <<6>>, <<3, 0, 2>>}
 
 ChooseChunks ==
